@@ -88,7 +88,7 @@ def hostile_tokens(rng, g, n):
 
 def gen_case(rng, cid, pool_texts):
     kind = rng.choice(["bytes", "mutdesc", "mutdesc", "longnames", "longnames", "bigrule", "codes", "codes", "flags",
-                       "debug", "longdesc", "manyalts", "bigcost"])
+                       "debug", "longdesc", "manyalts", "bigcost", "manyerrors"])
     L = ["C %d" % cid, "new 0"]
     feats = set()
     amode = rng.choice([0, 1, 2, 2, 2, 3])
@@ -161,6 +161,37 @@ def gen_case(rng, cid, pool_texts):
         L += emit_tokens([97] + [43, 97] * rng.randrange(0, 5))
         L += ["parse 0 %d h" % (amode if amode != 3 else 2)]
         feats.add("huge_costs")
+    elif kind == "manyerrors":
+        # dozens of error recoveries in one parse (some ignore no token, so the parser list outgrows the token
+        # list), all parses or the cost flag, translated terminals up to the end of the input
+        from . import recx
+        r = rng.random()
+        if r < 0.4:
+            g = Grammar([("a", 97), ("b", 98), ("c", 99), ("d", 100)],
+                        [Rule("L", ["L", "I"], "l", 1, [0, 1]), Rule("L", ["I"], None, 0, [0]),
+                         Rule("I", ["a", "b", "c", "d"], "i", 1, [0, 3]), Rule("I", ["error", "b", "c", "d"], "e", 2, [3])]
+                        + ([Rule("I", ["a", "error", "d"], "f", 1, [0, 2])] if rng.random() < 0.5 else []))
+            cap = 400
+        else:
+            # other error grammars may be exponentially ambiguous: short inputs there (building all parses of a
+            # long input is legitimately expensive, and a watchdog is not a verdict)
+            g = recx.error_grammars(rng, 1, strict=None)[0][1]
+            cap = 12
+        terms = g.term_names()
+        w = []
+        sens = [x for x in gen.inputs_for(rng, g, 2, 6, 8) if x]
+        for _ in range(rng.randrange(5, 60)):
+            x = list(rng.choice(sens)) if sens and rng.random() < 0.8 else [rng.choice(terms)]
+            if x and rng.random() < 0.6:
+                del x[rng.randrange(len(x))]           # mostly a missing token: a recovery that ignores nothing
+            w += x
+        code = g.code_of()
+        L += emit_config(0, la=rng.choice([0, 1, 2]), one=rng.randrange(2), cost=rng.randrange(2), rec=1,
+                         match=rng.choice([1, 2, 3]))
+        L += emit_define(g, 0, 0)
+        L += emit_tokens([code[t] for t in w[:cap]])
+        L += ["parse 0 %d h" % (amode if amode != 3 else 2)]
+        feats.add("many_recoveries")
     elif kind == "codes":
         k = rng.randrange(2, 12)
         lay = code_layout(rng)
